@@ -37,6 +37,14 @@ class HarnessError(Exception):
     Reported as ERROR / exit 2, never as a violation."""
 
 
+class CorrespondenceBroken(HarnessError):
+    """The Go side of the correspondence check no longer BUILDS against /repo's working tree (the harness
+    files live in the package under test and name its identifiers; setup has built them against the
+    unchanged tree, so a compile error now comes from a change to the code: an identifier the model is
+    tied to was renamed, removed or re-typed).  The property is then no longer shown to hold: reported as
+    a violation naming the correspondence that no longer checks, ending in no-failing-input-found."""
+
+
 def env(extra=None):
     e = dict(os.environ)
     e.update(GOENV)
@@ -320,6 +328,8 @@ def go_test_bin(prop, pkg, race=False):
         cmd.append("./" + pkg.strip("./"))
         rc, log, _ = run_cmd(cmd, cwd=REPO, timeout=1500, check=False, extra_env=extra)
         if rc != 0:
+            if re.search(r"\.go:\d+:\d+: ", log):          # compiler diagnostics (not a tool/IO failure)
+                raise CorrespondenceBroken("go test -c failed for %s:\n%s" % (pkg, log[-6000:]))
             raise HarnessError("go test -c failed for %s:\n%s" % (pkg, log[-6000:]))
     return out
 
